@@ -4,6 +4,7 @@ from pyvc.contract import *  # noqa: F401,F403
 from pyvc.contract import Contract, Registry
 from pyvc.values import *  # noqa: F401,F403
 from pyvc import interp as _interp
+from pyvc.interp import Unsupported  # noqa: F401
 
 REG = Registry()
 
